@@ -197,12 +197,13 @@ type c16PKI struct {
 	byDER map[string]int
 	sn    int64
 	memo  map[string][]int
+	encs  map[string][]byte // encrypted PKCS#8 per (key, password): the KDF is slow
 }
 
 func c16NewPKI(t *testing.T, pool []*c16PoolKey) *c16PKI {
 	t.Helper()
 
-	return &c16PKI{pool: pool, byDER: map[string]int{}, sn: 1000, memo: map[string][]int{}}
+	return &c16PKI{pool: pool, byDER: map[string]int{}, sn: 1000, memo: map[string][]int{}, encs: map[string][]byte{}}
 }
 
 func (p *c16PKI) add(tmpl, parent *x509.Certificate, pub crypto.PublicKey, signer crypto.Signer, issuer int) int {
@@ -395,9 +396,20 @@ func (p *c16PKI) keyBlock(b c16Block, password string) *pem.Block {
 			blk.Type, blk.Bytes = "EC PRIVATE KEY", der
 		}
 	case "encrypted":
-		der, err := pkcs8.MarshalPrivateKey(key.priv, []byte(password), nil)
-		if err != nil {
-			panic(err)
+		p.mu.Lock()
+		der, ok := p.encs[fmt.Sprintf("%d/%s", b.Key, password)]
+		p.mu.Unlock()
+
+		if !ok {
+			var err error
+
+			if der, err = pkcs8.MarshalPrivateKey(key.priv, []byte(password), nil); err != nil {
+				panic(err)
+			}
+
+			p.mu.Lock()
+			p.encs[fmt.Sprintf("%d/%s", b.Key, password)] = der
+			p.mu.Unlock()
 		}
 
 		blk.Type, blk.Bytes = "ENCRYPTED PRIVATE KEY", der
@@ -952,11 +964,29 @@ func (s *c16Sys) decodeToken(tok string, jwksBody []byte, jtis map[string]int) *
 		return out
 	}
 
-	for i, k := range s.pki.pool {
-		if _, err := jws.Verify(k.pub); err == nil {
-			out.Signer = i
+	// keys that fit the header's algorithm first, then every other key of the pool
+	fits := func(k *c16PoolKey) bool {
+		switch {
+		case strings.HasPrefix(out.Alg, "PS") || strings.HasPrefix(out.Alg, "RS"):
+			return k.Kind == "rsa"
+		case strings.HasPrefix(out.Alg, "ES"):
+			return k.Kind == "ecdsa" && fmt.Sprint(k.Size) == map[string]string{"ES256": "256", "ES384": "384", "ES512": "521"}[out.Alg]
+		default:
+			return false
+		}
+	}
 
-			break
+	for pass := 0; pass < 2 && out.Signer == 999; pass++ {
+		for i, k := range s.pki.pool {
+			if fits(k) != (pass == 0) {
+				continue
+			}
+
+			if _, err := jws.Verify(k.pub); err == nil {
+				out.Signer = i
+
+				break
+			}
 		}
 	}
 
@@ -1270,12 +1300,26 @@ func c16AllSupported() []int {
 	return out
 }
 
+// every supported type and size, the cheap ones more often (RSA 3072/4096 signatures dominate the run time)
+func c16PickKey(r *vf.Rand) int {
+	switch x := r.Intn(100); {
+	case x < 50:
+		return vf.Pick(r, append(append(c16PoolIndex("ecdsa", 256), c16PoolIndex("ecdsa", 384)...), c16PoolIndex("ecdsa", 521)...))
+	case x < 80:
+		return vf.Pick(r, c16PoolIndex("rsa", 2048))
+	case x < 90:
+		return vf.Pick(r, c16PoolIndex("rsa", 3072))
+	default:
+		return vf.Pick(r, c16PoolIndex("rsa", 4096))
+	}
+}
+
 func c16Unsupported() []int {
 	return append(append(c16PoolIndex("rsa", 1024), c16PoolIndex("ecdsa", 224)...), c16PoolIndex("other", 256)...)
 }
 
 func c16GenBlock(r *vf.Rand, malformed bool) c16Block {
-	b := c16Block{Key: vf.Pick(r, c16AllSupported()), Enc: vf.Pick(r, []string{"pkcs8", "trad", "trad", "encrypted"})}
+	b := c16Block{Key: c16PickKey(r), Enc: vf.Pick(r, []string{"pkcs8", "trad", "trad", "encrypted"})}
 
 	if malformed && r.Chance(35) {
 		b.Key = vf.Pick(r, c16Unsupported())
@@ -1289,7 +1333,7 @@ func c16GenBlock(r *vf.Rand, malformed bool) c16Block {
 		b.Chain = vf.Pick(r, []string{"self", "ca", "int"})
 		b.SKI = r.Chance(40)
 
-		if r.Chance(18) || (malformed && r.Chance(30)) {
+		if r.Chance(12) || (malformed && r.Chance(30)) {
 			b.Flaw = vf.Pick(r, []string{"nousage", "nousage", "expired", "notyet"})
 		}
 	}
@@ -1312,6 +1356,15 @@ func c16GenStore(r *vf.Rand, malformed bool) c16Store {
 		// mostly distinct key ids; duplicates are part of the malformed share
 		if used[b.XKid] && b.XKid != "" && !(malformed && r.Chance(50)) {
 			b.XKid = fmt.Sprintf("%s-%d", b.XKid, i)
+		}
+
+		// the same key twice without X-Key-ID means the same generated key id twice: keep that to the malformed share
+		if b.XKid == "" && !malformed {
+			for _, o := range s.Blocks {
+				if o.Key == b.Key {
+					b.XKid = fmt.Sprintf("dup-%d", i)
+				}
+			}
 		}
 
 		used[b.XKid] = true
@@ -1365,7 +1418,7 @@ func c16NextStore(r *vf.Rand, cur c16Store, malformed bool) c16Store {
 			case x < 60: // another key of the same type and size: same kid, same alg
 				nb.Key = vf.Pick(r, c16PoolIndex(s_kind(b.Key), s_size(b.Key)))
 			case x < 80: // same kid, another algorithm
-				nb.Key = vf.Pick(r, c16AllSupported())
+				nb.Key = c16PickKey(r)
 			}
 
 			s.Blocks = append(s.Blocks, nb)
@@ -1482,7 +1535,7 @@ func c16Gen(pki *c16PKI, r *vf.Rand, malformed bool) c16Case {
 		o := c16Store{Layout: "keys-first"}
 		for i, n := 0, 1+r.Intn(2); i < n; i++ {
 			o.Blocks = append(o.Blocks, c16Block{
-				Key: vf.Pick(r, c16AllSupported()), Enc: "pkcs8",
+				Key: c16PickKey(r), Enc: "pkcs8",
 				XKid: vf.Pick(r, []string{"", fmt.Sprintf("other-%d", i), vf.Pick(r, c16Kids)}),
 			})
 		}
